@@ -197,6 +197,9 @@ func (s *String) GetRange(start, end int64) []byte {
 	bl := int64(len(s.V))
 	if start < 0 {
 		start = bl + start
+		if start < 0 {
+			start = 0
+		}
 	}
 	if start >= int64(len(s.V)) {
 		return nil
